@@ -1,5 +1,5 @@
 (* C08 — observe server. Only statements here; every proof is [exact <lemma of Proofs/C08*.v>]. *)
-From Verif Require Import Lib.Py Lib.Tactics Model.C08 Proofs.C08 Proofs.C08Silent Proofs.C08Ends Proofs.C08Observe.
+From Verif Require Import Lib.Py Lib.Tactics Model.C08 Proofs.C08 Proofs.C08Silent Proofs.C08Ends Proofs.C08Observe Proofs.C08Wire.
 Open Scope Z_scope.
 
 (* The resource's bookkeeping, for every history of requests, observer reactions, losses, timers, triggers,
@@ -81,12 +81,33 @@ Theorem C08_ends_on_unsuccessful_first_response : forall s g0 res,
 Proof. exact ends_on_first_unsuccessful. Qed.
 Print Assumptions C08_ends_on_unsuccessful_first_response.
 
-(* ---- token and rising Observe numbers.  PARTIAL: proved for the render task's code (what one pass of the notification
-   loop hands to the message layer), not yet lifted to an invariant over whole histories on the wire ("the Observe values of the
-   datagrams of one registration, in order of first transmission, are strictly increasing").  Missing: the invariant
-   wire(g) ++ queued(g) = produced(g) of the FIFO backlog together with max Observe(g) <= next_observation_number for the
-   registration's local copy inside run_loop.  On histories this part of the property is checked by the oracle on the
-   implementation (signatures C08:observe-not-increasing, C08:wrong-token) and through the correspondence of complete traces. *)
+(* ---- token and strictly rising Observe numbers ON THE WIRE, for every history and every registration number g:
+   (FIFO) the datagrams transmitted for the first time for g, in order, followed by those still waiting in the per-endpoint
+   backlog, are a prefix of what the render task produced — all of it while g is live;
+   their Observe values are 0,1,2,... (only the very last one may carry none: the final notification), hence strictly rising;
+   all of them carry one endpoint and one token, those of the live registration. *)
+Theorem C08_wire_token_and_strictly_increasing_observe : forall mid0 es g, 0 <= g -> let s := run (init mid0) es in
+  (exists D, prodl g s = wirel g s ++ queuel g s ++ D) /\
+  consec 0 (observes (wirel g s)) /\
+  Sorted.StronglySorted Z.lt (obs_values (observes (wirel g s))) /\
+  (forall m1 m2, In m1 (wirel g s) -> In m2 (wirel g s) -> m_remote m1 = m_remote m2 /\ m_token m1 = m_token m2) /\
+  (forall g0, In g0 (s_regs s) -> g_gid g0 = g ->
+     prodl g s = wirel g s ++ queuel g s /\
+     observes (prodl g s) = somes (g_next g0 + 1) /\
+     forall m, In m (wirel g s) -> m_remote m = g_remote g0 /\ m_token m = g_token g0).
+Proof. exact wire_lemma. Qed.
+Print Assumptions C08_wire_token_and_strictly_increasing_observe.
+(* the invariant behind it holds in every reachable state (backlog entries are CON and have an exchange for their endpoint,
+   a NON registration never queues, a pending piggy-back opportunity means nothing was produced yet, ...) *)
+Theorem C08_backlog_fifo_invariant : forall mid0 es, FI None (run (init mid0) es).
+Proof. intros. apply run_FI, FI_init. Qed.
+Print Assumptions C08_backlog_fifo_invariant.
+Example C08_wire_nonvacuous :
+  let s := run (init 0) [ERequest 1 true 1 1 (Some 0); ETrigger [] [(TRender, false)]; ETrigger [] [(TRender, false)]; ETrigger [] [(TRender, false)]; EAck 1 0] in
+  map m_observe (wirel 0 s) = [Some 0; Some 1; Some 2] /\ map m_observe (queuel 0 s) = [Some 3] /\ exists g0, In g0 (s_regs s) /\ g_gid g0 = 0.
+Proof. vm_compute. repeat split. eexists. split; [left; reflexivity | reflexivity]. Qed.
+
+(* the code-level facts the invariant rests on (one pass of the notification loop) *)
 Theorem C08_notification_token_and_observe_partial : forall s g code o pk pv,
   exists m, s_prod (emit s g code o pk pv) = m :: s_prod s /\
             m_token m = g_token g /\ m_remote m = g_remote g /\ m_observe m = o /\ m_gid m = g_gid g /\ m_code m = code /\ m_pk m = pk /\ m_pv m = pv.
@@ -102,7 +123,7 @@ Theorem C08_observe_strictly_increasing_partial : forall cont s g code pk pv, g_
 Proof. exact notification_observe_next. Qed.
 Print Assumptions C08_observe_strictly_increasing_partial.
 (* ---- latest state: a burst of triggers before the task runs leaves exactly the last value in the (lossy) future, with a
-   sticky is_last.  PARTIAL in the same sense: "after the script has settled the newest notification on the wire is as new as
+   sticky is_last.  PARTIAL: "after the script has settled the newest notification on the wire is as new as
    the last change" is checked by the oracle (C08:latest-not-sent), not proved over histories. *)
 Theorem C08_trigger_keeps_latest_partial : forall s gid g tv1 l1 tv2 l2, find_reg s gid = Some g ->
   find_reg (trigger (trigger s gid tv1 l1) gid tv2 l2) gid = Some (set_trig g (Some tv2) (g_late g || l1 || l2)).
